@@ -757,8 +757,11 @@ func (c *Ctx) VerifyFunction(key string) (*FuncReport, error) {
 			}
 			run.entryMeasure = run.entryMeasures[0]
 		}
-		c.captureOld(env, ct.Ensures, run.oldCache)
 		run.entryAlloc = c.Arr(st, famAlloc, ArraySort(SInt, SBool))
+		run.entryArrays = make(map[string]Term, len(st.arrays))
+		for fam, t := range st.arrays {
+			run.entryArrays[fam] = t
+		}
 		run.entryHeld = c.Arr(st, famHeld, ArraySort(SInt, SBool))
 		// vacuity guard: the precondition must be satisfiable
 		c.emit(st, nil, nil, "cover", "precondition", True, "precondition satisfiable", true)
